@@ -83,7 +83,9 @@ func init() {
 		k := ed25519.NewKeyFromSeed(expand(name, 32))
 		poolEd = append(poolEd, &KeyPair{Name: name, Alg: -8, Priv: k, Pub: k.Public()})
 	}
-	for i, f := range []string{"rsa2048a", "rsa2048b", "rsa3072"} {
+	// (the last two have a modulus whose bit length is not a multiple of 8:
+	// RFC 8230 asks for at least 2048 bits, not for a byte-aligned size)
+	for i, f := range []string{"rsa2048a", "rsa2048b", "rsa3072", "rsa2050", "rsa2060"} {
 		raw, err := keyFS.ReadFile("keys/" + f + ".pem")
 		if err != nil {
 			panic(err)
@@ -94,7 +96,7 @@ func init() {
 			panic(err)
 		}
 		k.Precompute()
-		poolRSA = append(poolRSA, &KeyPair{Name: f, Alg: []int64{-37, -38, -39}[i], Priv: k, Pub: &k.PublicKey})
+		poolRSA = append(poolRSA, &KeyPair{Name: f, Alg: []int64{-37, -38, -39, -37, -39}[i], Priv: k, Pub: &k.PublicKey})
 	}
 	poolAll = append(poolAll, poolEC...)
 	poolAll = append(poolAll, poolEd...)
@@ -124,7 +126,7 @@ func pickKey(t *tape.Tape) *KeyPair {
 	case 3:
 		return poolEC[6+t.Choose(3, "key.p521")]
 	case 4:
-		k := poolRSA[t.Choose(3, "key.rsa")]
+		k := poolRSA[t.Choose(len(poolRSA), "key.rsa")]
 		if t.Bool(1, 3, "key.rsa.otherhash") {
 			return k.withAlg([]int64{-37, -38, -39}[t.Choose(3, "key.rsa.alg")])
 		}
